@@ -88,6 +88,7 @@ static void chain_ref(Bytes &d, int T, bool enc) { // sequential reference of th
 static Bytes pad(const Bytes &p) { Bytes d = p; int n = 16 - (int)(d.size() % 16); d.insert(d.end(), n, (u8_t)n); return d; }
 
 static int g_ofd = -1;
+static int g_futex_seen = 0; // the pipeline used futex-word waits / once routines (std::future & co.) in this execution
 static int STATEFUL = 0;
 static uint64_t g_out_hash = 0;
 static void refresh_out_hash() { uint64_t h = 99; if (g_ofd >= 0) { Bytes o = slurp_fd(g_ofd); h = h * 1099511628211ULL + o.size(); for (auto b : o) h = (h ^ b) * 1099511628211ULL; } g_out_hash = h; }
@@ -214,7 +215,24 @@ static std::vector<long> expected_blocks(int stream, size_t body_len) {
 // ---- scenarios -----------------------------------------------------------------------------------------------
 static std::string digest8(const Bytes &b) { unsigned char d[32]; SHA256(b.data(), b.size(), d); return hex(d, 8); }
 
+// at a deadlock: a chunk that was loaded and published while the worker that owns its position has already returned can never be
+// given to its owner any more - that is C14's "every chunk is given to exactly one worker", on top of C04's deadlock
+static std::string *g_obsp = nullptr;
+static void pre_fatal(int code) {
+  if (code != VS_DEADLOCK || !g_obsp || !g_bg || !g_bg->buflst) return;
+  std::string ab;
+  for (u32_t bi = 0; bi < g_bg->size && bi < (u32_t)multicry_master::THREAD_MAX; bi++) {
+    int c = g_chunk_of_buf[bi];
+    if (c < 0 || !vs_thread_done((int)bi + 1)) continue; // worker i is the i-th thread run_multicry creates
+    long seen = 0;
+    for (auto &l : g_log[bi]) if (l.gblock >= (long)c * NB && l.gblock < (long)(c + 1) * NB) seen++;
+    if (seen < (long)g_bg->buflst[bi].total) ab += (ab.empty() ? "" : ",") + std::string("chunk") + std::to_string(c) + "@buf" + std::to_string(bi) + ":" + std::to_string(seen) + "of" + std::to_string(g_bg->buflst[bi].total);
+  }
+  if (!ab.empty()) *g_obsp = "running;abandoned=" + ab;
+}
 static void scenario_pipe(std::string &obs) {
+  g_obsp = &obs;
+  vx::g_pre_fatal = pre_fatal;
   for (auto &l : g_log) l.clear();
   for (auto &c : g_chunk_of_buf) c = -1;
   memset(g_io_busy, 0, sizeof g_io_busy);
@@ -240,6 +258,7 @@ static void scenario_pipe(std::string &obs) {
   mm.run_multicry(m.data(), [](std::string, size_t) {});
   vs_end();
   int nthreads = vs_nthreads_seen;
+  if (vs_futex_ops > 0) g_futex_seen = 1;
   g_streams = nullptr;
   g_fin = nullptr;
   buffergroup::del_instance();
@@ -268,7 +287,7 @@ static void scenario_pipe(std::string &obs) {
   }
   std::string ov;
   for (auto &o : g_overlap) ov += (ov.empty() ? "" : ",") + o;
-  obs = "out=" + digest8(out) + ";mout=" + mout + ";mlog=" + mlog + ";races=" + (races.empty() ? "none" : races) + ";overlap=" + (ov.empty() ? "none" : ov) + ";threads=" + std::to_string(nthreads) + ";hooks=" + (g_hook_events > 0 ? "seen" : "MISSING");
+  obs = "out=" + digest8(out) + ";mout=" + mout + ";mlog=" + mlog + ";races=" + (races.empty() ? "none" : races) + ";overlap=" + (ov.empty() ? "none" : ov) + ";threads=" + std::to_string(nthreads) + ";hooks=" + (g_hook_events > 0 ? "seen" : "MISSING") + (g_futex_seen ? ";futexwords=1" : "");
 }
 
 // end-to-end through runcrypt with the real AES streams, compared with the reference file
@@ -304,7 +323,16 @@ struct Verdict { std::string prop, key, desc; };
 static std::vector<Verdict> classify_all(const vx::Exec &x) {
   std::vector<Verdict> v;
   if (x.outcome == vx::OC_SLEEPBLOCKED) return v;
-  if (x.outcome == vx::OC_DEADLOCK) { v.push_back({"C04", "deadlock", "deadlock: " + x.fatal}); return v; }
+  if (x.outcome == vx::OC_EXIT && x.exitcode >= 93 && x.exitcode <= 99) { // a limit of the scheduler/harness itself (too many threads, mutexes, ...): cannot decide, never a verdict
+    fprintf(stderr, "pipe_explore: the child hit a limit of the machinery (exit %d): %s\n", x.exitcode, x.fatal.c_str());
+    _exit(92);
+  }
+  if (x.outcome == vx::OC_DEADLOCK) {
+    v.push_back({"C04", "deadlock", "deadlock: " + x.fatal});
+    size_t p = x.obs.find("abandoned=");
+    if (p != std::string::npos) v.push_back({"C14", "chunk-abandoned", "a loaded chunk is left without its owner (the worker that owns its position has returned; blocks processed/loaded): " + x.obs.substr(p + 10)});
+    return v;
+  }
   if (x.outcome == vx::OC_HORIZON) { v.push_back({"C04", "livelock", "step horizon exceeded: " + x.fatal}); return v; }
   if (x.outcome == vx::OC_TIMEOUT) { v.push_back({"C04", "hang", "wall-clock alarm (loop without scheduling point?)"}); return v; }
   if (x.outcome == vx::OC_ASAN) { v.push_back({"C03", "memory-error", "AddressSanitizer report during pipeline run; obs=" + x.obs}); return v; }
@@ -372,7 +400,7 @@ int main(int argc, char **argv) {
   if (a.has("replay")) { // run one schedule twice, print observations, exit 0 iff identical
     std::vector<int> pre = a.list("replay");
     cfg.sleep = a.num("sleep", 0) != 0;
-    vx::Exec x1 = vx::run_one(pre, cfg, sc), x2 = vx::run_one(pre, cfg, sc);
+    vx::Exec x1 = vx::run_one_checked(pre, cfg, sc), x2 = vx::run_one_checked(pre, cfg, sc);
     std::vector<Verdict> v1 = classify_all(x1), v2 = classify_all(x2);
     std::string want = a.str("prop", "");
     std::string verdict = "holds";
@@ -398,7 +426,7 @@ int main(int argc, char **argv) {
         std::vector<int> ch = vx::choices_of(x);
         vx::Config c2 = cfg;
         if (x.outcome == vx::OC_TIMEOUT) c2.alarm_s = cfg.alarm_s * 10;
-        vx::Exec y = vx::run_one(ch, c2, sc);
+        vx::Exec y = vx::run_one_checked(ch, c2, sc);
         if (x.outcome == vx::OC_TIMEOUT && y.outcome != vx::OC_TIMEOUT) { reported[k]--; continue; } // slow machine, not a hang
         bool same = false;
         for (auto &e2 : classify_all(y)) if (e2.prop == e.prop && e2.key == e.key) same = true;
@@ -424,6 +452,7 @@ int main(int argc, char **argv) {
       .n("state_cuts", st.state_cuts).n("successor_checks", st.succ_checked).n("successor_mismatches", st.succ_mismatch).emit();
   if (cfg.stateful) J().s("t", "flag").s("name", "abstraction_deterministic").bo("value", st.succ_mismatch == 0).emit();
   J().s("t", "hist").s("name", "outcomes").raw("counts", jmap(oc)).emit();
+  { bool fx = false; for (auto &o : st.observations) if (o.first.find("futexwords=1") != std::string::npos) fx = true; J().s("t", "flag").s("name", "no_futex_words").bo("value", !fx).emit(); }
   if (SCEN == "pipe") { bool seen = true; for (auto &o : st.observations) if (o.first.find("hooks=MISSING") != std::string::npos) seen = false; J().s("t", "flag").s("name", "hooks_seen").bo("value", seen).emit(); }
   J().s("t", "info").s("config", cfgname).n("executions", st.executions).n("states", (long)st.states.size()).n("max_deviations", st.max_preemptions_seen).bo("completed", !st.capped).n("distinct_observations", (long)st.observations.size()).n("shard", cfg.shard).emit();
   return 0;
